@@ -679,21 +679,39 @@ def _siblings(ctx):
             tag, ta, sa, tb, sb_ = d[0] if d else ("replace", [norm_text(a.node.args)], None, [norm_text(b.node.args)], None)
             ctx.violated(b, sb_ or b.node, "%s differs between the two law classes: %s  vs  %s" %
                          (name, " ; ".join(ta) or "(nothing)", " ; ".join(tb) or "(nothing)"), text="cross-class " + name)
-    sub = {"strain": "delta_strain", "_e_star": "_delta_e_star", "e_star": "delta_e_star", "load": "delta_load",
-           "stress": "delta_stress", "_u_term": "_u_term_secondary", "_middle_term": "_middle_term_secondary",
-           "_neuber_strain": "_neuber_strain_secondary", "_stress_implicit": "_stress_secondary_implicit",
-           "corrected_load": "corrected_load"}
-    pairs = {EN: [("_e_star", "_delta_e_star"), ("_neuber_strain", "_neuber_strain_secondary"),
-                  ("_stress_implicit", "_stress_secondary_implicit"), ("_load_implicit", "_load_secondary_implicit")],
-             SB: [("_e_star", "_delta_e_star"), ("_neuber_strain", "_neuber_strain_secondary"),
-                  ("_stress_implicit", "_stress_secondary_implicit"), ("_load_implicit", "_load_secondary_implicit"),
-                  ("_u_term", "_u_term_secondary"), ("_middle_term", "_middle_term_secondary")]}
+    # the pairs come from the classes themselves: a private method whose name carries the range marker ("secondary" / "delta")
+    # is the secondary-branch sibling of the method with the marker removed
+    def primary_of(name):
+        for cand in (name.replace("_secondary", "", 1), name.replace("delta_", "", 1)):
+            if cand != name:
+                yield cand
+    pairs = {}
+    for ck in (EN, SB):
+        ci = prog.cls(ck)
+        own = prog.methods_of(ci)
+        ps = []
+        for s_name in sorted(own):
+            if not s_name.startswith("_") or s_name.startswith("__") or s_name.startswith("_d_"):
+                continue
+            for p_name in primary_of(s_name):
+                if p_name in own and p_name.startswith("_"):
+                    ps.append((p_name, s_name))
+                    break
+        pairs[ck] = ps
+    if len(pairs[EN]) < 4 or len(pairs[SB]) < 6:
+        raise AnalysisError("primary / secondary helper pairs not found (%d in ExtendedNeuber, %d in SeegerBeste)" %
+                            (len(pairs[EN]), len(pairs[SB])))
     for ck, ps in pairs.items():
         ci = prog.cls(ck)
+        helper_map = {"strain": "delta_strain"}                 # the Ramberg-Osgood relation's own primary / range pair
+        helper_map.update(dict(ps))
         for p, s in ps:
             a, b = prog.lookup_method(ci, p), prog.lookup_method(ci, s)
             if a is None or b is None:
                 raise AnalysisError("%s: helper pair %s/%s missing" % (ci.name, p, s))
+            sub = dict(helper_map)
+            if len(a.params) == len(b.params):
+                sub.update({x: y for x, y in zip(a.params, b.params) if x != y})
             d, na, nb = diff_blocks(a.node.body, b.node.body, mapping=sub)
             pa = [sub.get(x, x) for x in a.params]
             if not d and pa == b.params:
